@@ -669,6 +669,29 @@ Proof.
   - vm_compute. auto 10.
 Qed.
 
+(* ---------------------------------------------------------------- one tagged dict: the serializer's special tag, then the registry *)
+Lemma d2c_node_special : forall E pre chain tagkey argskey attrkey reg special sub keys vals,
+  special_hit special (node_tag tagkey keys vals) = true ->
+  fst (d2c_node E pre chain tagkey argskey attrkey reg special sub keys vals) = [] /\
+  forall v, snd (d2c_node E pre chain tagkey argskey attrkey reg special sub keys vals) = Ok v -> v = VFloat true.
+Proof.
+  intros E pre chain tagkey argskey attrkey reg special sub keys vals H. unfold d2c_node. fold (node_tag tagkey keys vals).
+  destruct special as [[ftag fkey]|]; simpl in H; try discriminate. rewrite H.
+  destruct (lookup fkey keys vals) as [x|]. 2:{ split; simpl; auto. intros; discriminate. }
+  unfold float_special. destruct x; split; simpl; auto; intros v Hv; inversion Hv; reflexivity.
+Qed.
+
+Lemma d2c_node_registered : forall E pre chain tagkey argskey attrkey reg special sub keys vals s,
+  registry_before_refuse pre = true ->
+  special_hit special (node_tag tagkey keys vals) = false -> node_tag tagkey keys vals = VStr s -> mem s reg = true ->
+  d2c_node E pre chain tagkey argskey attrkey reg special sub keys vals = ([EvConverter s], Ok (VObj (CCustom s) [])).
+Proof.
+  intros E pre chain tagkey argskey attrkey reg special sub keys vals s Hr H Ht Hm. unfold d2c_node. fold (node_tag tagkey keys vals).
+  assert (Hsp : match special with Some (ftag, fkey) => if key_is ftag (node_tag tagkey keys vals) then Some fkey else None | None => None end = None).
+  { destruct special as [[ftag fkey]|]; simpl in H; auto. rewrite H. reflexivity. }
+  rewrite Hsp. rewrite Ht. simpl. rewrite (decide_registered E pre chain reg s _ Hr Hm). reflexivity.
+Qed.
+
 (* ---------------------------------------------------------------- registry histories at the generated mode *)
 Lemma gen_registries_inplace : reg_d2c_inplace && reg_c2d_inplace = true.
 Proof. vm_compute. reflexivity. Qed.
@@ -709,4 +732,21 @@ Proof.
   exists [ {| op_add := true; op_ep := EpSer 3; op_kind := KD2C; op_tag := txt "shop.Order" |};
            {| op_add := false; op_ep := EpBase; op_kind := KD2C; op_tag := txt "shop.Order" |} ], 3%N, (txt "shop.Order").
   vm_compute. auto.
+Qed.
+
+(* one class-tagged dict, at the generated tables, after any history: the serializer's own special tag (serpent: "float")
+   is turned into a float without consulting the registry; every other text tag that is currently registered goes to
+   its converter and nothing else happens *)
+Lemma gen_node_special_or_registry : forall h ser sub keys vals,
+  let reg := gen_effective KD2C h ser in
+  let special := find_special ser_float_special ser in
+  let node := d2c_node gen_env dtc_pre dtc_chain dtc_tagkey mkexc_argskey mkexc_attrkey reg special sub keys vals in
+  (special_hit special (node_tag dtc_tagkey keys vals) = true -> fst node = [] /\ forall v, snd node = Ok v -> v = VFloat true) /\
+  (forall s, special_hit special (node_tag dtc_tagkey keys vals) = false -> node_tag dtc_tagkey keys vals = VStr s ->
+             currently_registered KD2C h s = true -> node = ([EvConverter s], Ok (VObj (CCustom s) []))).
+Proof.
+  intros h ser sub keys vals reg special node. split.
+  - intros H. apply d2c_node_special. exact H.
+  - intros s H Ht Hc. apply d2c_node_registered; auto using gen_registry_first.
+    unfold reg. rewrite gen_registry_histories. exact Hc.
 Qed.
